@@ -34,6 +34,7 @@ def run(tier, argv):
     rep.cov["distinct_nontrivial"] += s2["evaluations"]
     rep.cov["traces_validated_against_impl"] += s2["evaluations"]
     bad += semcommon.random_tier(work, rep, hbin, False, (300 if quick else 60000))
+    bad += semcommon.diff_tier(work, rep, hbin, PROP, 30000 if quick else 1500000)
     for b in bad[:40]:
         rep.violation(b, "%s | doc %s | want %s got %s" % (b["schema"].replace("\n", "\\n")[:200], b.get("doc"), b["want"], json.dumps(b["got"])[:200]))
     rep.violations = len(bad)
